@@ -2471,14 +2471,21 @@ return 1;""",
             for overload in methods:
                 if overload.cpp_if:
                     body.append("#" + overload.cpp_if)
+                # Arguments which are not passed from Python.
+                nskip = 0
+                for arg in overload.ast.params:
+                    if arg.attrs["implied"] or arg.metaattrs["intent"] == "out":
+                        nskip += 1
                 if overload._nargs:
                     body.append(
                         "if (SHT_nargs >= %d && SHT_nargs <= %d) {+"
-                        % overload._nargs
+                        % (overload._nargs[0] - nskip,
+                           overload._nargs[1] - nskip)
                     )
                 else:
                     body.append(
-                        "if (SHT_nargs == %d) {+" % len(overload.ast.params)
+                        "if (SHT_nargs == %d) {+"
+                        % (len(overload.ast.params) - nskip)
                     )
                 append_format(
                     body,
